@@ -36,6 +36,7 @@ import (
 	"fmt"
 	"hash"
 	"strconv"
+	"sync"
 	"time"
 
 	"gitlab.com/yawning/obfs4.git/common/csrand"
@@ -288,7 +289,7 @@ func (hs *serverHandshake) parseClientHandshake(filter *replayfilter.ReplayFilte
 		macRx := resp[pos+markLength : pos+markLength+macLength]
 		if hmac.Equal(macCmp, macRx) {
 			// Ensure that this handshake has not been seen previously.
-			if filter.TestAndSet(time.Now(), macRx) {
+			if testAndSetNow(filter, macRx) {
 				// The client either happened to generate exactly the same
 				// session key and padding, or someone is replaying a previous
 				// handshake.  In either case, fuck them.
@@ -360,6 +361,22 @@ func (hs *serverHandshake) generateHandshake() ([]byte, error) {
 	buf.Write(hs.mac.Sum(nil)[:macLength])
 
 	return buf.Bytes(), nil
+}
+
+// replayFilterLock serializes sampling the clock and querying the replay
+// filter.
+var replayFilterLock sync.Mutex
+
+// testAndSetNow queries (and updates) the replay filter using the current
+// time.  The clock is sampled with replayFilterLock held, as concurrent
+// handshakes could otherwise present their timestamps to the filter out of
+// order, which the filter treats as the system time having jumped backwards
+// (jettisoning every handshake it remembers).
+func testAndSetNow(filter *replayfilter.ReplayFilter, buf []byte) bool {
+	replayFilterLock.Lock()
+	defer replayFilterLock.Unlock()
+
+	return filter.TestAndSet(time.Now(), buf)
 }
 
 // getEpochHour returns the number of hours since the UNIX epoch.
